@@ -24,9 +24,10 @@ func init() { Registry["C20"] = c20 }
 
 type pcase struct {
 	t     *schema.Type
-	v     any    // value (read-only once built)
-	bytes []byte // sequential encoding
-	want  any    // sequential decode result
+	v     any      // value (read-only once built)
+	bytes []byte   // sequential encoding
+	want  any      // sequential decode result
+	sums  [4]int64 // the four checksum services over bytes, computed sequentially
 }
 
 type pevent struct {
@@ -37,6 +38,7 @@ type pevent struct {
 
 func buildParallelCases(e *Env, perType int, useRef bool) []pcase {
 	var cs []pcase
+	algs := c14algs()
 	for _, t := range e.Types() {
 		opts := e.caseOpts(t, perType, 0, false, false)
 		for ci, o := range opts {
@@ -67,7 +69,13 @@ func buildParallelCases(e *Env, perType int, useRef bool) []pcase {
 				}
 				want = d
 			}
-			cs = append(cs, pcase{t, v, w, want})
+			pc := pcase{t: t, v: v, bytes: w, want: want}
+			if useRef {
+				pc.sums = refAll(algs, w)
+			} else if s, err := calcAll(algs, w); err == nil {
+				pc.sums = s
+			}
+			cs = append(cs, pc)
 		}
 	}
 	return cs
@@ -91,6 +99,7 @@ func runParallel(e *Env, cs []pcase, G, ops int, label string) (evs [][]pevent, 
 		go func(gi int) {
 			defer wg.Done()
 			rng := gen.NewRng(e.Seed, "C20", label, gi)
+			algs := c14algs()
 			my := make([]pevent, 0, 2*ops)
 			var mybad []pmismatch
 			atomic.AddInt32(&ready, 1)
@@ -130,6 +139,18 @@ func runParallel(e *Env, cs []pcase, G, ops int, label string) (evs [][]pevent, 
 				}
 				if diff := val.Equal(c.want, d); diff != "" && len(mybad) < 5 {
 					mybad = append(mybad, pmismatch{gi, ci, "decode", diff})
+				}
+				// the four checksum services, called directly on a private buffer (CRC16 is used by no
+				// generated codec, so only this call reaches it concurrently)
+				if k%4 == 0 {
+					priv := append([]byte(nil), c.bytes...)
+					t0 = int64(time.Since(start))
+					sums, serr := calcAll(algs, priv)
+					t1 = int64(time.Since(start))
+					my = append(my, pevent{int32(ci), 2, t0, t1})
+					if (serr != nil || sums != c.sums) && len(mybad) < 5 {
+						mybad = append(mybad, pmismatch{gi, ci, "checksum-services", fmt.Sprintf("err=%v got=%v want(sequential)=%v", serr, sums, c.sums)})
+					}
 				}
 			}
 			evs[gi] = my
@@ -261,6 +282,9 @@ func c20Child(e *Env, mode string) {
 			if b.op == "encode" {
 				w, err, p := EncodeFresh(val.Clone(c.v))
 				seqSame = err != nil || p != nil || !bytes.Equal(w, c.bytes)
+			} else if b.op == "checksum-services" {
+				s, err := calcAll(c14algs(), append([]byte(nil), c.bytes...))
+				seqSame = err != nil || s != c.sums
 			} else {
 				d := e.C.New[c.t.QName]()
 				err, p := LibDecode(d, bytes.NewBuffer(append([]byte(nil), c.bytes...)))
@@ -281,7 +305,7 @@ func c20(e *Env) {
 		c20Child(e, e.Args[0])
 		return
 	}
-	r.Rule("expected bytes/messages for 3 canonical values of each of the 170 types are computed first, sequentially; then 64 goroutines (busy-wait barrier, no channel or shared atomic inside the measured region) each perform 1000 (thorough 10000) encode+decode operations on randomly chosen cases, on private clones, private buffers and private receivers — frames and extended messages included, so the checksum registry and all 18 discriminator maps are read concurrently; the same workload with 250/2500 operations per goroutine in a -race build; first-use trials: 4 (thorough 32) fresh processes (alternating plain / -race builds) in which the very first touch of every table and checksum service happens concurrently from 16 goroutines, judged against the reference codec. distinct_nontrivial = distinct (type,type) pairs whose calls were observed overlapping in real time, summed over the runs")
+	r.Rule("expected bytes/messages for 3 canonical values of each of the 170 types are computed first, sequentially; then 64 goroutines (busy-wait barrier, no channel or shared atomic inside the measured region) each perform 1000 (thorough 10000) encode+decode operations on randomly chosen cases, on private clones, private buffers and private receivers — frames and extended messages included, so the checksum registry and all 18 discriminator maps are read concurrently — plus, every fourth operation, a direct Calc of all four registered checksum services on a private buffer; the same workload with 250/2500 operations per goroutine in a -race build; first-use trials: 4 (thorough 32) fresh processes (alternating plain / -race builds) in which the very first touch of every table and checksum service happens concurrently from 16 goroutines, judged against the reference codec. distinct_nontrivial = distinct (type,type) pairs whose calls were observed overlapping in real time, summed over the runs")
 	r.Explain("Oracle: every parallel result equals the sequential one (bytes byte-for-byte, messages ≡); zero race-detector reports (counted from the log) and no runtime 'concurrent map' abort; the registered key→type answers of all 18 factories are identical before and after. Evidence numbers (overlapping call pairs, concurrency histogram, distinct overlapping type pairs) are computed offline from per-goroutine logs.")
 	r.Assume("the exported Registry…Factory mutators are not called concurrently: the property says tables are only read after start-up", "the race detector judges only the accesses the workload performed")
 	type run struct{ bin, mode, label string }
